@@ -125,9 +125,10 @@ def rule_scc(prog):
             if e.kind == 'setitem' and e.loops:
                 updates.append((p, e))
     if not updates:
-        r1.fail(Finding(PROP, 'R-SCC-1', f.where(), f.short(), 'no-update',
-                        'the successor scan never updates a lowlink'))
-        return [r1, r2, r3, r4]
+        # no `lowlink[v] = ...` inside a successor scan was recognised:
+        # another organisation of the bookkeeping (records, helper objects)
+        raise Inconclusive('R-SCC-1', 'no lowlink update recognised in the '
+                           'post-order step', f.where())
     L = updates[0][1].target
     v = updates[0][1].args[0]
     loopvar = updates[0][1].loops[-1].var
